@@ -73,7 +73,7 @@ def sent(g):
 
 def check(pid: str, tier: str, seed: int):
     rng = random.Random(seed * 86028157 + 19)
-    violations, metas, cases, icases = [], [], [], []
+    violations, metas, cases, icases, lcases = [], [], [], [], []
     with C.Scratch():
         impl = C.import_impl()
         import maltoolbox.ingestors.neo4j as neo
@@ -127,6 +127,10 @@ def check(pid: str, tier: str, seed: int):
             except Exception as e:
                 pv.append(f'get_model raised {type(e).__name__} on what ingest_model sent')
             if back is not None:
+                try:
+                    lcases.append(f'({LG.c_lang(L)}, {PMIO.c_content(content)}, {PMIO.c_content(PMIO.content_of(back))})')
+                except Exception:
+                    pass
                 ra, rl, _ = PLEG.resolved(m)
                 ga, gl, _ = PLEG.resolved(back)
                 if {k: v[:2] for k, v in ra.items()} != {k: v[:2] for k, v in ga.items()}:
@@ -169,8 +173,10 @@ def check(pid: str, tier: str, seed: int):
         bad, _, errors = C.run_cases(pid, IMPORTS, 'content * list (string * string * string) * list (string * string * string)', chk, cases, None, shard=60)
         ichk = 'Definition check (c : lang * content) : bool := neo_import_check c.'
         ibad, _, ierrors = C.run_cases(pid + 'I', IMPORTS + ' Lang LangGraph Classes', 'lang * content', ichk, icases, None, shard=40)
-        bad = bad + ibad
-        errors = errors + ierrors
+        lchk = 'Definition check (c : lang * content * content) : bool := neo_load_check c.'
+        lbad, _, lerrors = C.run_cases(pid + 'L', IMPORTS + ' Lang LangGraph Classes Model ModelOps ModelLoad', 'lang * content * content', lchk, lcases, None, shard=40)
+        bad = bad + ibad + lbad
+        errors = errors + ierrors + lerrors
     if errors:
         violations.append({'message': 'the correspondence could not be evaluated', 'cause': 'coq-error', 'correspondence': 'corr_C19_export', 'errors': errors[:3]})
     by_cause = {}
@@ -185,7 +191,7 @@ def check(pid: str, tier: str, seed: int):
         violations.append({'message': 'implementation and model disagree; no input found on which the property itself fails',
                            'cause': 'model-mismatch', 'correspondence': 'corr_C19_export (Neo.neo_check)', 'mismatching_cases': len(bad)})
     nontriv = {json.dumps(m['content'], default=str) for m in metas if len(m['content'][2]) >= 2}
-    cov = {'evaluations': len(cases) + len(icases), 'distinct_nontrivial': len(nontriv),
+    cov = {'evaluations': len(cases) + len(icases) + len(lcases), 'import_rebuild_cases': len(lcases), 'distinct_nontrivial': len(nontriv),
            'rule': 'random languages (inheritance, shared association names) and models (explicit / negative ids, links between sub-types, self links, '
                    'several associations between one pair of assets); ingest_model, get_model and ingest_attack_graph run against a recording '
                    'stand-in for py2neo.Graph that answers the two queries of get_model from what was created; non-trivial = two or more associations',
